@@ -269,4 +269,40 @@ theorem liveness_exact_total (P : LProg) (hwf : WF P) (i : Nat) (hi : i < P.size
     mem (getMS (liveness P (fuelBound P)).1.ins i) id lane = true ↔ LiveInSpec P i id lane :=
   liveness_exact P hwf _ (liveness_terminates P) i hi id lane
 
+/-- **C02 (live-out), unconditional.** -/
+theorem liveout_exact_total (P : LProg) (hwf : WF P) (i : Nat) (hi : i < P.size) (id lane : Nat) :
+    mem (getMS (liveness P (fuelBound P)).1.outs i) id lane = true ↔ LiveOutSpec P i id lane :=
+  liveout_exact P hwf _ (liveness_terminates P) i hi id lane
+
+/-- Any fuel that lets the analysis stop gives the result of the bound `fuelBound`:
+what the driver computes (with `fuelBound`) is what `pass.Liveness` computes when it stops. -/
+theorem liveness_fuel_irrelevant (P : LProg) (hwf : WF P) (fuel : Nat) (hstop : (liveness P fuel).2 = false)
+    (i : Nat) (hi : i < P.size) (id lane : Nat) :
+    mem (getMS (liveness P fuel).1.ins i) id lane =
+    mem (getMS (liveness P (fuelBound P)).1.ins i) id lane := by
+  have h1 := liveness_exact P hwf fuel hstop i hi id lane
+  have h2 := liveness_exact_total P hwf i hi id lane
+  cases ha : mem (getMS (liveness P fuel).1.ins i) id lane <;>
+  cases hb : mem (getMS (liveness P (fuelBound P)).1.ins i) id lane <;> try rfl
+  · exact absurd (h1.mpr (h2.mp hb)) (by simp [ha])
+  · exact absurd (h2.mpr (h1.mp ha)) (by simp [hb])
+
+/-- Non-vacuity of the `_total` theorems: a loop with a backward branch, run
+with the proved bound `fuelBound` (here 21): well-formed, terminates, `r1`
+(id 257) is live around the loop, lane 0 of id 513 is dead before its definition. -/
+example :
+    let P : LProg := #[⟨[⟨257, 15⟩], [⟨513, 15⟩], [some 1]⟩, ⟨[⟨513, 1⟩], [], [some 0, none]⟩]
+    fuelBound P = 21 ∧ (liveness P (fuelBound P)).2 = false ∧
+      mem (getMS (liveness P (fuelBound P)).1.outs 1) 257 3 = true ∧
+      mem (getMS (liveness P (fuelBound P)).1.ins 0) 513 0 = false := by
+  decide +kernel
+
+/-- The hypothesis `WF` of the `_total` theorems holds for that program. -/
+example : WF (#[⟨[⟨257, 15⟩], [⟨513, 15⟩], [some 1]⟩, ⟨[⟨513, 1⟩], [], [some 0, none]⟩] : LProg) := by
+  intro i hi s hs
+  have hi' : i < 2 := hi
+  match i, hi' with
+  | 0, _ => simp at hs; subst hs; decide
+  | 1, _ => simp at hs; subst hs; decide
+
 end Avo.Live
